@@ -60,13 +60,26 @@ def rule_update_conf(ctx: RuleContext, p: Program, rid: str) -> None:
     st = p.cls('TokenStore', 'token_store')
     f = p.method(st, 'update', inherited=False)
     n = 0
+    # local aliases of attribute chains (`block = handle.block`) are expanded before a written path is judged
+    alias: dict[str, str] = {}
+    for a in walk_no_nested(f.node):
+        if isinstance(a, ast.Assign) and len(a.targets) == 1 and isinstance(a.targets[0], ast.Name) and isinstance(a.value, ast.Attribute):
+            nm = a.targets[0].id
+            alias[nm] = '' if nm in alias else norm(a.value)
+
+    def expand(txt: str, depth: int = 0) -> str:
+        head, _, rest = txt.partition('.')
+        if depth < 4 and alias.get(head):
+            return expand(alias[head], depth + 1) + ('.' + rest if rest else '')
+        return txt
+
     for a in walk_no_nested(f.node):
         tg = a.targets if isinstance(a, ast.Assign) else [a.target] if isinstance(a, ast.AugAssign) else a.targets if isinstance(a, ast.Delete) else []
         for t in tg:
             if isinstance(t, ast.Name):
                 continue
             n += 1
-            txt = norm(t)
+            txt = expand(norm(t))
             ok = txt.endswith(('.block.size.line', '.block.size.column', '.block.last_newline_index'))
             ctx.check(ok, rid, 'token_store:TokenStore.update', norm(a)[:100], f'TokenStore.update writes `{txt}`: a text update must not touch '
                       f'tokens, handles, the block list, the length or indexes', f.where, note=txt)
